@@ -21,7 +21,7 @@ pub fn def() -> PropDef {
 }
 
 fn streams(t: Tier) -> Vec<StreamDef> {
-    vec![st("noncanonical", t.n(60_000, 3_000_000, 80, 15_000), false), st("hostile", t.n(60_000, 3_000_000, 80, 15_000), false), st("flagwords", t.n(65536, 65536, 0, 65536), true)]
+    vec![st("noncanonical", t.n(60_000, 3_000_000, 80, 15_000), false), st("hostile", t.n(60_000, 3_000_000, 80, 15_000), false), st("flagwords", t.n(65536, 65536, 0, 65536), true), st("big", t.n(240, 6000, 0, 240), false)]
 }
 
 fn floors(t: Tier) -> Vec<(String, u64)> {
@@ -154,7 +154,7 @@ pub fn judge(ctx: &mut Ctx, b: &[u8], forms: &[&'static str]) {
         }
     };
     // the same decoded value encoded from a destructor during an unrelated unwind must give e1
-    if ctx.rng.chance(1, 4) {
+    if e1.len() > 20_000 || ctx.rng.chance(1, 4) {
         match exec::encode_msg(&cm, Wk::WhileUnwinding) {
             exec::EncOut::Ok(e) if e.bytes == e1 => ctx.rep.bucket("reencode.while_unwinding"),
             exec::EncOut::Ok(e) => {
@@ -231,6 +231,25 @@ fn run(ctx: &mut Ctx) {
         }
         "hostile" => {
             let (b, _) = wire::hostile(&mut ctx.rng);
+            judge(ctx, &b, &[]);
+        }
+        "big" => {
+            // accepted messages of tens of kilobytes (maximal records, thousands of minimal ones)
+            let b = if ctx.rng.bool() {
+                let n = *ctx.rng.pick(&[5_000usize, 5_461, 5_462, 8_191, 10_000, 10_919]);
+                let mut body = wire::message_type_record(1);
+                for _ in 0..n {
+                    body.extend_from_slice(&[0x00, 0x06, 0, 0, 0, 39]); // M bit unset: non-canonical
+                }
+                wire::control_around(&body, 1, 2, 3, 4)
+            } else {
+                let mut body = wire::message_type_record(1);
+                for _ in 0..ctx.rng.range(20, 63) {
+                    body.extend_from_slice(&wire::raw_record(7, false, 0, &vec![0x41; 1017], false));
+                }
+                wire::control_around(&body, 1, 2, 3, 4)
+            };
+            ctx.rep.bucket("big_inputs");
             judge(ctx, &b, &[]);
         }
         "flagwords" => {
